@@ -50,11 +50,16 @@ fn check_idx(d: [usize; 3], i: [usize; 3]) -> Option<Cex> {
 
 pub fn run(_seed: u64, replay: Option<String>) -> Outcome {
     if let Some(r) = replay {
+        let r_in = r.clone();
         let p: Vec<&str> = r.split(';').collect();
         let (a, b) = (nums(p.get(1).unwrap_or(&"")), nums(p.get(2).unwrap_or(&"")));
         let c = match p[0] {
             "eq" if a.len() == 2 && b.len() == 2 => check_eq([a[0], a[1]], [b[0], b[1]]),
             "idx" if a.len() == 3 && b.len() == 3 => check_idx([a[0], a[1], a[2]], [b[0], b[1], b[2]]),
+            "clone" if a.len() == 2 && b.len() == 2 => {
+                let r = guarded(|| { let src = Tensor::<u32, 2>::from_vec([b[0], b[1]], (0..(b[0] * b[1]) as u32).collect()); let mut dst = Tensor::<u32, 2>::from_vec([a[0], a[1]], vec![7u32; a[0] * a[1]]); dst.clone_from(&src); dst == src && *dst.dims() == [b[0], b[1]] });
+                if r == Ok(true) { None } else { Some(Cex { input: r_in.clone(), observed: format!("{:?}", r), expected: "equal to the source".into() }) }
+            }
             _ => None,
         };
         return Outcome { cex: c, cases: 1 };
@@ -88,6 +93,22 @@ pub fn run(_seed: u64, replay: Option<String>) -> Outcome {
             }
         }
     }
+    // clones: `clone` and `clone_from` give a tensor equal to the source (shape AND elements), also when the destination had another shape
+    for a0 in 1..=3usize { for a1 in 1..=3usize { for b0 in 1..=3usize { for b1 in 1..=3usize {
+        cases += 1;
+        let r = guarded(|| {
+            let src = Tensor::<u32, 2>::from_vec([b0, b1], (0..(b0 * b1) as u32).collect());
+            let mut dst = Tensor::<u32, 2>::from_vec([a0, a1], vec![7u32; a0 * a1]);
+            dst.clone_from(&src);
+            let c2 = src.clone();
+            let mut ok = dst == src && c2 == src && *dst.dims() == [b0, b1] && *c2.dims() == [b0, b1];
+            for i in 0..b0 { for j in 0..b1 { ok &= dst[[i, j]] == (i * b1 + j) as u32 && c2[[i, j]] == (i * b1 + j) as u32; } }
+            ok
+        });
+        if r != Ok(true) {
+            return Outcome { cex: Some(Cex { input: format!("clone;{},{};{},{}", a0, a1, b0, b1), observed: format!("a tensor of shape {:?} after clone_from(a tensor of shape {:?}): {:?}", [a0, a1], [b0, b1], r), expected: "equal to the source in shape and elements".into() }), cases };
+        }
+    } } } }
     // zero extents / length mismatch are rejected at construction
     for (d, n) in [([0usize, 2], 0usize), ([2, 0], 0), ([2, 3], 5), ([2, 3], 7)] {
         cases += 1;
